@@ -131,6 +131,7 @@ def run_gosym(run, tier, use_cache=True, workers=16):
     with open(tmp) as fh:
         out = json.load(fh)
     os.remove(tmp)
+    out["harnesses"] = out.get("harnesses") or []
     out["cmd"] = " ".join(cmd)
     out["ran_at"] = time.strftime("%Y-%m-%dT%H:%M:%SZ", time.gmtime())
     out["run_wall_s"] = time.time() - t0
